@@ -285,17 +285,15 @@ func c01Oracle(w *simWorld, faultEvs []int) (out []Violation, trigger bool) {
 			}
 		}
 	}
+	// Frames and acknowledgements of a long-polling client are delivered at its next poll, possibly after
+	// the deletion: delivery order cannot tell the incarnations apart. A topic that was deleted during the
+	// run is therefore left out of the ledger altogether (bucket "#deleted").
 	ek := func(topic string, ev int) string {
-		n := 0
-		for _, d := range delEvs[topic] {
-			if d <= ev {
-				n++
-			}
-		}
-		if n == 0 {
+		if len(delEvs[topic]) == 0 {
 			return topic
 		}
-		return fmt.Sprintf("%s#%d", topic, n)
+		simrt.Probe("c01.deleted_topic_excluded")
+		return topic + "#deleted"
 	}
 	base := func(k string) string {
 		if i := strings.IndexByte(k, '#'); i >= 0 {
@@ -414,6 +412,9 @@ func c01Oracle(w *simWorld, faultEvs []int) (out []Violation, trigger bool) {
 		return keys[i].seq < keys[j].seq
 	})
 	for _, k := range keys {
+		if strings.Contains(k.topic, "#") {
+			continue
+		}
 		if len(obs[k]) > 1 {
 			out = append(out, vio("C01", "number-issued-twice", "topic %s seq %d carries different messages: %v", k.topic, k.seq, obs[k]))
 		}
@@ -429,6 +430,9 @@ func c01Oracle(w *simWorld, faultEvs []int) (out []Violation, trigger bool) {
 	}
 	sort.Strings(topics)
 	for _, tname := range topics {
+		if strings.Contains(tname, "#") {
+			continue
+		}
 		list := byTopic[tname]
 		sort.Slice(list, func(i, j int) bool { return list[i].Seq < list[j].Seq })
 		clients := map[int]bool{}
@@ -489,9 +493,6 @@ func c01Oracle(w *simWorld, faultEvs []int) (out []Violation, trigger bool) {
 			}
 		}
 		// (6) the Disk holds every acknowledged message under its number, and its topic row is at least that high
-		if tname != ek(base(tname), 1<<30) {
-			continue // an earlier incarnation of a deleted topic: nothing of it is in the store
-		}
 		disk := map[int]string{}
 		for _, m := range w.Disk.Messages[base(tname)] {
 			var content any
@@ -529,7 +530,7 @@ func c01Oracle(w *simWorld, faultEvs []int) (out []Violation, trigger bool) {
 			if list[0].Seq > 1+len(unans[tname]) && w.Crashes == 0 {
 				out = append(out, vio("C01", "first-number", "topic %s: first accepted number is %d", tname, list[0].Seq))
 			}
-			if tname != ek(base(tname), 1<<30) {
+			if strings.Contains(tname, "#") {
 				continue
 			}
 			if ts := sn.Topics[tname]; ts != nil {
